@@ -107,18 +107,19 @@ def classify_fold(req, impl_line, model_line):
     # `x * -1 => -x` meets the missing SMALLINT arm of `neg`); the former mul-zero witness is
     # still replayed as a regression input.
     symbolic_null = fold == "none" and " null)" in req and not req.startswith("(f (* i32:0 (cast INT null))")
-    if so != "-" and not symbolic_null and not (so == sn or (not so.startswith("ok") and not sn.startswith("ok"))):
+    differs = so != "-" and not symbolic_null and not (so == sn or (not so.startswith("ok") and not sn.startswith("ok")))
+    if differs:
         problems.append("optimizer-on!=off")
-        if fold == "none" and not tags:
-            if so.startswith("ok") and not sn.startswith("ok") and not rt.startswith("ok"):
-                # direct evaluation fails (overflow / failed cast in some subexpression), the optimised
-                # plan returns a value: rewriting removed or reordered the failing subexpression
-                tags = ["optimizer:removes-runtime-error"]
-            else:
-                tags = ["optimizer:on-off-differs"]
     # `fold:null-loses-type` explains only "fails with the optimizer, succeeds without"
     if "fold:null-loses-type" in tags and not (problems == ["optimizer-on!=off"] and not so.startswith("ok") and sn.startswith("ok")):
         tags = [t for t in tags if t != "fold:null-loses-type"]
+    if differs and fold == "none" and not tags:
+        if so.startswith("ok") and not sn.startswith("ok") and not rt.startswith("ok"):
+            # direct evaluation fails (overflow / failed cast in some subexpression), the optimised
+            # plan returns a value: rewriting removed or reordered the failing subexpression
+            tags = ["optimizer:removes-runtime-error"]
+        else:
+            tags = ["optimizer:on-off-differs"]
     return {"kind": "fold", "impl": impl_line, "model": model_line, "tags": tags, "problems": problems,
             "model_eq_impl": ip[0] == mp[0] and ip[1] == mp[1]}
 
